@@ -51,12 +51,15 @@ _ASSUME = ["C09's progress clause reads 'has a context' as: a context is install
 _TECH = "Coq inductive invariant over a gate-level interleaving model + schedule-controlled differential correspondence (synctest) against the Go code"
 
 _COQ8 = _COQ + ["RefCount/ProofsC08.v", "RefCount/ProofsC08b.v"]
-# the monitors tied to the model for all event lists (model_satisfies_monitors_clauses): needs every proof file of the slice
+# the monitors tied to the model for all event lists (model_satisfies_monitors): needs every proof file of the slice
 _COQMON = ["RefCount/ProofsC08.v", "RefCount/ProofsC08b.v", "RefCount/ProofsC09.v", "RefCount/ProofsC10.v", "RefCount/ProofsC10a.v", "RefCount/ProofsC10b.v",
            "RefCount/ProofsCodec.v", "RefCount/ProofsMon.v", "RefCount/ProofsMon2.v", "RefCount/ProofsMon3.v", "RefCount/ProofsMon4.v", "RefCount/ProofsMon5.v",
            "RefCount/ProofsMon6.v", "RefCount/ProofsMon7.v", "RefCount/ProofsMonG.v", "RefCount/ProofsMon8.v", "RefCount/ProofsMon9.v", "RefCount/ProofsMon10.v",
            "RefCount/ProofsMon11.v", "RefCount/ProofsMon12.v", "RefCount/ProofsMon13.v", "RefCount/ProofsMon14.v", "RefCount/ProofsMon15.v",
-           "RefCount/ProofsMon16.v", "RefCount/ProofsMonThm.v"]
+           "RefCount/ProofsMon16.v", "RefCount/ProofsMonThm.v",
+           # the full statement (model_satisfies_monitors / model_run_check_clean: all clauses, every configuration)
+           "RefCount/ProofsMon17.v", "RefCount/ProofsMon18.v", "RefCount/ProofsMon19.v", "RefCount/ProofsMon20.v", "RefCount/ProofsMon21.v",
+           "RefCount/ProofsMon22.v", "RefCount/ProofsMon23.v", "RefCount/ProofsMonThm2.v"]
 
 PROPS = {
     "C08": dict(pid=8, coq=_COQ + _COQMON + ["RefCount/Props_C08.v"], props_file="RefCount/Props_C08.v", models=_MODELS, trusted=_TRUSTED, assumptions=_ASSUME,
@@ -74,7 +77,7 @@ PROPS = {
                          "keep+resolved+no error), or the store section of a superseded goroutine (its own, never delivered result). The codec "
                          "produces only generation-unique resolver values (lemma about Spec.hstep). Model tied to the code by scheduled differential "
                          "correspondence; monitors (once; target/refs at release; allowed causes; no leak) run on the implementation's observations. "
-                         "Monitors tied to the model for ALL event lists and every configuration (model_satisfies_monitors_clauses): on the model's own "
+                         "Monitors tied to the model for ALL event lists and every configuration (model_satisfies_monitors, the full statement; clause-wise: model_satisfies_monitors_clauses): on the model's own "
                          "observations the clauses 8.1-8.4 are never false.",
                     note=NOTE + "Resolver values are generation-unique (g+1), or empty together with an error (then 'the target does not hold that value' is vacuous: the target never holds the empty value; what is proved and monitored is: the target does not hold g+1 and no reference in the set still has the result as last notification). "
                                 "'Shortly after' = by an enabled internal step (store section) or within the same critical section. Gate placement trusted.",
@@ -91,7 +94,7 @@ PROPS = {
                          "goroutine of a new generation. No event list makes the model panic (AddRef(nil) on a resolved container: D9 repaired; the "
                          "pinned variant is a _refuted theorem); every API call is one total section (no deadlock). Monitors on the implementation's "
                          "observations: <= 1 goroutine in the resolver, AddRef never panics, quiescent => in progress or delivered, released() restarts. "
-                         "Monitors tied to the model for ALL event lists and every configuration (model_satisfies_monitors_clauses): clauses 9.1-9.5 are never "
+                         "Monitors tied to the model for ALL event lists and every configuration (model_satisfies_monitors, the full statement; clause-wise: model_satisfies_monitors_clauses): clauses 9.1-9.5 are never "
                          "false on the model's own observations (incl.: after the eager schedule no blocked goroutine has its wake-up condition; with context, "
                          "reference and nothing resolved the newest goroutine is of the current generation, also under a cancelled root context).",
                     note=NOTE + "Liveness is quiescence safety (fairness of the Go scheduler is not modelled). 'No deadlock' = every API call is a single "
@@ -116,11 +119,15 @@ PROPS = {
                          "inside its callback; Canceled for a cancelled caller. The seeded ABA variant is a _refuted theorem. Monitors on the "
                          "implementation's observations: clauses 10.1-10.3 as before; 10.4 value passed = current value; 10.5 invalidated => "
                          "callback context cancelled; 10.6 callback result returned only from an unraced invocation, re-invocation at quiescence; "
-                         "10.7 resolver error / Canceled returned as such. Monitors tied to the model for ALL event lists (model_satisfies_monitors_clauses): "
-                         "clauses 10.1-10.3 for every configuration (new invariants: every value a Wait/Resolve/ResolveWithReleased consumer was given is the "
-                         "empty value or a finished goroutine's; a WaitWithReleased consumer that was given a result, is still in the set and has not fired "
-                         "implies that very result is still stored), 10.4 and 10.5 for the generation-unique configurations; 10.6 / 10.7 (and 10.4 / 10.5 in the "
-                         "constant-value configuration) are NOT proved about the monitors' bookkeeping.",
+                         "10.7 resolver error / Canceled returned as such. Monitors tied to the model for ALL event lists and EVERY configuration, all clauses "
+                         "(model_satisfies_monitors, model_run_check_clean: the full statement): 10.1-10.3 (invariants: every value a Wait/Resolve/"
+                         "ResolveWithReleased consumer was given is the empty value or a finished goroutine's; a WaitWithReleased consumer that was given a "
+                         "result, is still in the set and has not fired implies that very result is still stored); 10.4-10.7 also in the constant-value "
+                         "configuration: the judge's books (inside the callback, context cancelled, invalidated since the invocation started, decided: expected "
+                         "code / callback result) are tied to the model state by an invariant of the codec's states (invalidated <=> Access's nonce left its "
+                         "snapshot; decided <=> inside its final Release or returned, with that code), using a light state invariant that needs no "
+                         "generation-unique values, 'a release actor's reference keeps its release flag', 'a consumer inside its own Release has a release actor', "
+                         "and 'a section that is not a store section leaves Access's bookkeeping alone or has told it gone'.",
                     note=NOTE + "Not proved in Coq (checked by monitor clause 10.1 on every trace): that a Wait/ResolveWithReleased consumer's "
                                 "returned value is one of the delivered generation values. Access's private Broadcast is not gated: S1/S2 and the "
                                 "wake-up are consumer steps that the theorems allow to be delayed arbitrarily; the harness realises the eager "
